@@ -165,9 +165,19 @@ lzma2_decode(void *coder_ptr, lzma_dict *restrict dict,
 		// coder->compressed_size later.
 		const size_t in_start = *in_pos;
 
+		// Don't let the LZMA decoder see input beyond the end of
+		// this chunk. If the chunk is invalid so that the LZMA
+		// decoder wants more input than the chunk has, how far it
+		// would decode (and how much it would output) before we
+		// notice it would otherwise depend on how much input
+		// happens to be available in this call.
+		size_t in_limit = in_size;
+		if (in_size - *in_pos > coder->compressed_size)
+			in_limit = *in_pos + (size_t)(coder->compressed_size);
+
 		// Decode from in[] to *dict.
 		const lzma_ret ret = coder->lzma.code(coder->lzma.coder,
-				dict, in, in_pos, in_size);
+				dict, in, in_pos, in_limit);
 
 		// Validate and update coder->compressed_size.
 		const size_t in_used = *in_pos - in_start;
@@ -177,8 +187,17 @@ lzma2_decode(void *coder_ptr, lzma_dict *restrict dict,
 		coder->compressed_size -= in_used;
 
 		// Return if we didn't finish the chunk, or an error occurred.
-		if (ret != LZMA_STREAM_END)
+		if (ret != LZMA_STREAM_END) {
+			// If the whole chunk has been given to the LZMA
+			// decoder and it stopped although there is room
+			// for more output, it wants input that the chunk
+			// doesn't have.
+			if (ret == LZMA_OK && coder->compressed_size == 0
+					&& dict->pos < dict->limit)
+				return LZMA_DATA_ERROR;
+
 			return ret;
+		}
 
 		// The LZMA decoder must have consumed the whole chunk now.
 		// We don't need to worry about uncompressed size since it
